@@ -138,6 +138,98 @@ Definition handle_outcome K cr c pid reg wfail script : outcome Handshake.run :=
 Definition handshake_outcome K cr c pid reg wfail script : outcome Handshake.run :=
   hs_guard K cr (Handshake.handshake c (hs_oracles K cr pid reg) wfail script).
 
+
+(* ---- stream.go ReadMsg on one delivered frame, as an outcome (model/Framing.v decides the class) ------------------
+   payload handed to the inner Unmarshal | nil error without payload | an error.  No crash branch exists. *)
+From MevVerif Require model.Framing.
+Definition read_msg_outcome (fr : bytes) : outcome (option bytes) :=
+  match Framing.read_msg fr with
+  | Framing.RData d => Ok (Some d)
+  | Framing.ROkNoData => Ok None
+  | Framing.RStatus _ => Err 1
+  | Framing.RNeither => Err 2
+  | Framing.RMalformed => Err 3
+  | Framing.RUnspec => Err 4
+  end.
+
+(* ---- pkg/discovery: the pool of check workers and its weighted semaphore ----------------------------------------
+     handlePeersList   select { case d.checkPeers <- p: (PSend) ; case <-ctx.Done(): return (PCancel) }
+     checkAndAddPeers  peer := <-d.checkPeers ; sem.Acquire(Background, 1) (PAcquire: returns once held < cap) ;
+                       go func() { defer sem.Release(1) ; Connect ; AddPeers }()   (PDone: the worker returns)
+   Weighted.Release panics when more is released than is held.  [release_on_cancel] is the seeded variant in
+   which the handler gives back a slot on its ctx.Done branch. *)
+Record pool := { held : N; workers : N; queued : N }.
+Definition pool_init : pool := {| held := 0; workers := 0; queued := 0 |}.
+Inductive pool_event := PSend | PCancel | PAcquire | PDone.
+Definition pool_step (cap : N) (release_on_cancel : bool) (s : pool) (e : pool_event) : outcome pool :=
+  match e with
+  | PSend => Ok {| held := held s; workers := workers s; queued := queued s + 1 |}
+  | PCancel =>
+      if release_on_cancel
+      then if held s =? 0 then Panic else Ok {| held := held s - 1; workers := workers s; queued := queued s |}
+      else Ok s
+  | PAcquire =>
+      if (0 <? queued s) && (held s <? cap)
+      then Ok {| held := held s + 1; workers := workers s + 1; queued := queued s - 1 |}
+      else Ok s
+  | PDone =>
+      if workers s =? 0 then Ok s
+      else if held s =? 0 then Panic
+           else Ok {| held := held s - 1; workers := workers s - 1; queued := queued s |}
+  end.
+Fixpoint pool_run (cap : N) (roc : bool) (s : pool) (evs : list pool_event) : outcome pool :=
+  match evs with
+  | [] => Ok s
+  | e :: r => match pool_step cap roc s e with Ok s' => pool_run cap roc s' r | Err c => Err c | Panic => Panic end
+  end.
+
+
+(* ---- libp2p.go: handleConnectReq / Connect around the handshake, on the registry and the block list ------------- *)
+From MevVerif Require model.PeerRegistry model.Blocklist.
+Record node := { n_reg : PeerRegistry.reg; n_blocks : Blocklist.bmap }.
+(* one connection attempt: direction, the remote's transport id (as the block list keys it), the connection, whether
+   it has closed by the time addPeer runs, the clock, and what the handshake sees *)
+Record attempt := {
+  at_inbound : bool; at_pid : Blocklist.pid; at_conn : PeerRegistry.conn; at_closed : bool; at_now : Z;
+  at_cfg : Handshake.config; at_pres : Handshake.pres; at_registered : bytes -> bool;
+  at_wfail : nat -> bool; at_script : list Handshake.frame }.
+
+Definition block_after (inbound : bool) (m : Blocklist.bmap) (p : Blocklist.pid) (now : Z) (cl : Handshake.refusal) : Blocklist.bmap :=
+  match Handshake.block_effects (if inbound then c04_inbound_durations else c04_outbound_durations) cl with
+  | [Handshake.EBlock d] => Blocklist.block_peer m p d now
+  | _ => m
+  end.
+
+(* handleConnectReq (inbound) / Connect from the opened handshake stream on (outbound) *)
+Definition connect_wrapper (K : bytes -> bytes) (cr : Signer.crypto) (mkpeer : bytes -> Z -> PeerRegistry.peer)
+           (nd : node) (a : attempt) : outcome node :=
+  let ho := if at_inbound a
+            then handle_outcome K cr (at_cfg a) (at_pres a) (at_registered a) (at_wfail a) (at_script a)
+            else handshake_outcome K cr (at_cfg a) (at_pres a) (at_registered a) (at_wfail a) (at_script a) in
+  match ho with
+  | Panic => Panic
+  | Err e => Err e
+  | Ok r =>
+      match Handshake.res r with
+      | Handshake.Refuse cl =>
+          Ok {| n_reg := n_reg nd; n_blocks := block_after (at_inbound a) (n_blocks nd) (at_pid a) (at_now a) cl |}
+      | Handshake.Enrol addr t =>
+          Ok {| n_reg := fst (PeerRegistry.add_peer (n_reg nd) (at_conn a) (mkpeer addr t) (at_closed a));
+                n_blocks := n_blocks nd |}
+      end
+  end.
+
+Fixpoint connect_run K cr mkpeer (nd : node) (l : list attempt) : outcome node :=
+  match l with
+  | [] => Ok nd
+  | a :: r => match connect_wrapper K cr mkpeer nd a with
+              | Ok nd' => connect_run K cr mkpeer nd' r
+              | Err e => Err e
+              | Panic => Panic
+              end
+  end.
+
+
 (* ---- handshake -------------------------------------------------------------------------------------- *)
 (* what the k-th ReadMsg of Handle / Handshake yields *)
 Inductive hs_read :=
